@@ -155,7 +155,7 @@ Record wproc := mkWP {
 Record launch := mkLaunch { l_w : wid; l_t : tid; l_inst : N; l_rv : N; l_nodes : list wid; l_ok : bool; l_alloc : list N }.
 
 (** Client responses. Submit error codes: 0 JobNotOpened, 1 JobNotFound, 2 TaskIdAlreadyExists,
-    3 NonUniqueTaskId, 4 InvalidDependencies.  Close codes: 0 Closed, 1 InvalidJob, 2 AlreadyClosed. *)
+    3 NonUniqueTaskId, 4 InvalidDependencies, 5 undefined resource request (generic Error message).  Close codes: 0 Closed, 1 InvalidJob, 2 AlreadyClosed. *)
 Inductive resp :=
 | RSubmitOk (job n : N) (ids : list N)
 | RSubmitErr (code arg : N)
